@@ -192,7 +192,27 @@ fn c02(tier: Tier) -> Vec<SeqCfg> {
     a.push(store(StoreKind::Set, K2, b"p", 0, 0, Current));
     a.push(get(K2));
     let d = if tier == Tier::Quick { 6 } else { 8 };
-    vec![base("C02/cas", "C02", a, d, tier)]
+    let mut v = vec![base("C02/cas", "C02", a, d, tier)];
+    // CAS-carrying stores that also carry a TTL, on a server whose clock is far from 0
+    let b = vec![
+        set(K1, b"s", 1, 0),
+        set(K1, b"t", 1, 3),
+        store(StoreKind::Set, K1, b"c1", 2, 2, Current),
+        store(StoreKind::Set, K1, b"c2", 2, 2, Stale1),
+        store(StoreKind::Set, K1, b"c3", 2, 50, CurrentPlus1),
+        store(StoreKind::Replace, K1, b"r1", 3, 2, Current),
+        store(StoreKind::Replace, K1, b"r2", 3, 2, Stale1),
+        append(K1, b"+", Stale1),
+        incr(K1, 1, 10, 2, Stale1),
+        delete(K1, Stale1),
+        get(K1),
+        tick(1),
+        tick(3),
+    ];
+    let mut c = base("C02/cas-with-ttl-late-clock", "C02", b, if tier == Tier::Quick { 5 } else { 7 }, tier);
+    c.start_time = 100;
+    v.push(c);
+    v
 }
 
 fn c05(tier: Tier) -> Vec<SeqCfg> {
@@ -242,6 +262,7 @@ fn c06(tier: Tier) -> Vec<SeqCfg> {
     let a = vec![
         set(K1, b"base", 0xdeadbeef, 0),
         set(K1, b"", 0, 0),
+        set(K1, b"", 0xdeadbeef, 0),
         set(K1, b"tmp", 5, 1),
         add(K1, b"A", 1, 0),
         add(K1, b"", 0xdeadbeef, 0),
@@ -314,6 +335,12 @@ fn c07(tier: Tier) -> Vec<SeqCfg> {
     a.push(get(K1));
     a.push(delete(K1, Zero));
     a.push(tick(5));
+    // quiet variants: same rules, errors are still answered
+    a.push(quiet(incr(K1, 1, 5, 0, Zero)));
+    a.push(quiet(decr(K1, 1, 5, 0, Zero)));
+    a.push(quiet(incr(K1, 1, 5, 0xffff_ffff, Zero)));
+    a.push(quiet(decr(K1, 1, 5, 0xffff_ffff, Zero)));
+    a.push(quiet(incr(K1, 1, 5, 0, Stale1)));
     let d = if tier == Tier::Quick { 5 } else { 8 };
     vec![base("C07/counters", "C07", a, d, tier)]
 }
